@@ -436,6 +436,11 @@ pub fn encode_with_fixed_block_size<T: Source>(
     }
 
     destruct_arc(parsink).finalize(|f: Frame| stream.add_frame(f));
+    // The final frame may be shorter than `block_size`, but it must not lower
+    // `min_block_size` (RFC 9639 section 8.2 excludes the last block).
+    stream
+        .stream_info_mut()
+        .set_block_sizes(block_size, block_size)?;
 
     stream
         .stream_info_mut()
